@@ -909,6 +909,17 @@ macro_rules! ord_event {
     ($T:ty, $tn:expr, $sh:expr, $x:expr, $y:expr) => {{
         let a: $T = <$T>::new_from_internals_near_raw($x.k, &$x.a, &$x.b);
         let b: $T = <$T>::new_from_internals_near_raw($y.k, &$y.a, &$y.b);
+        // every other left operand reaches its value through Clone::clone_from into an object that
+        // held a full-length hash before (the order must not depend on how a value got there)
+        let a: $T = if ($x.a.len() + $y.a.len()) % 2 == 1 {
+            let da: Vec<u8> = (0..64).map(|i| ((i * 5 + 1) % 64) as u8).collect();
+            let db: Vec<u8> = (0..a.block_hash_2_as_array().len()).map(|i| ((i * 7 + 2) % 64) as u8).collect();
+            let mut d: $T = <$T>::new_from_internals_near_raw(30, &da, &db);
+            d.clone_from(&a);
+            d
+        } else {
+            a
+        };
         $sh.emit(&format!(
             "{{\"ev\":\"ord\",\"T\":\"{}\",\"A\":{},\"B\":{},\"eq\":{},\"ne\":{},\"cmp\":{},\"pcmp\":{},\"rcmp\":{},\"hasheq\":{},\"dhasheq\":{},\"cbs\":{},\"rel\":\"{:?}\",\"near\":[{},{},{},{}],\"len1\":{},\"len2\":{},\"arr1\":{},\"arr2\":{}}}",
             $tn, $x.j_pub(), $y.j_pub(), a == b, a != b, ord_i(a.cmp(&b)), a.partial_cmp(&b).map(ord_i).unwrap_or(9), ord_i(b.cmp(&a)),
@@ -991,6 +1002,16 @@ pub fn ladders(rng: &mut Rng) -> Vec<Vec<H>> {
             let c = if dir == 0 { 63 - 2 * k } else { 2 * k };
             let b: Vec<u8> = (0..rng.range(0, 5)).map(|_| rng.below(64) as u8).collect();
             fam.push(H { k, a: vec![c, c, (c + 1) % 64, 7], b });
+        }
+        out.push(fam);
+    }
+    // single runs of neighbouring lengths: the dual forms need up to 16 RLE symbols and two
+    // neighbours share all but the last one or two of them
+    for which in 0..2u8 {
+        let mut fam = vec![];
+        for ln in (4usize..=12).chain(30..=48).chain(58..=64) {
+            let run = vec![9u8; ln];
+            fam.push(if which == 0 { H { k: 7, a: run, b: vec![1, 2] } } else { H { k: 7, a: vec![1, 2], b: run } });
         }
         out.push(fam);
     }
